@@ -8,6 +8,7 @@
 package main
 
 import (
+	"errors"
 	"fmt"
 	"net"
 	"strings"
@@ -316,6 +317,89 @@ func reuseBody(c cfg) func() {
 	}
 }
 
+// staleBody: the poller has fetched one batch with an event for connection X and an event
+// (readable + peer half-closed) for connection A. While X's data callback runs, the application
+// closes A and adds a new connection B, which inherits A's descriptor number. The poller then
+// reaches A's event: it belongs to a registration that no longer exists and must not be applied to
+// B. B's peer sends afterwards; B must receive everything and must not have been closed.
+func staleBody(c cfg) func() {
+	return func() {
+		vsys.Configure(false, false)
+		conf := nbio.Config{Name: "c02", NPoller: 1, ReadBufferSize: c.b, MaxConnReadTimesPerEventLoop: c.maxReads}
+		c.mode.Apply(&conf)
+		g := nbio.NewEngine(conf)
+		got := map[*nbio.Conn][]byte{}
+		closed := map[*nbio.Conn]error{}
+		var x *nbio.Conn
+		inX, bAdded := false, false
+		g.OnData(func(cc *nbio.Conn, data []byte) {
+			got[cc] = append(got[cc], data...)
+			if cc == x && !inX {
+				inX = true
+				vsched.Block("B added", func() bool { return bAdded })
+			}
+		})
+		g.OnClose(func(cc *nbio.Conn, err error) {
+			if err == nil {
+				err = errors.New("nil")
+			}
+			closed[cc] = err
+		})
+		if err := g.Start(); err != nil {
+			vsched.Fail("harness|engine start: %v", err)
+			return
+		}
+		var peerX *vsys.Peer
+		x, peerX = ekit.Stream(false, 64, 64)
+		a, peerA := ekit.Stream(false, 64, 64)
+		fdA := a.VerifFD()
+		for _, cc := range []*nbio.Conn{x, a} {
+			if _, err := g.AddConn(cc); err != nil {
+				vsched.Fail("harness|AddConn: %v", err)
+				return
+			}
+		}
+		vsched.WaitIdle()
+		// both become ready while the poller sleeps: one batch, X first
+		peerX.WriteAll(ekit.Payload(3, 1))
+		peerA.WriteAll(ekit.Payload(1, 1))
+		peerA.CloseWrite()
+		vsched.Block("X's data callback entered", func() bool { return inX })
+		_ = a.Close()
+		b, peerB := ekit.Stream(false, 64, 64)
+		reused := 0
+		if b.VerifFD() == fdA {
+			reused = 1
+		}
+		if _, err := g.AddConn(b); err != nil {
+			vsched.Fail("harness|AddConn: %v", err)
+			return
+		}
+		bAdded = true
+		vsched.WaitIdle()
+		sentB := ekit.Payload(2, c.b+1)
+		peerB.WriteAll(sentB)
+		vsched.WaitIdle()
+		_, bClosed := closed[b]
+		lastCounters = map[string]int{"descriptor_number_reused": reused, "same_batch": btoi(len(got[a]) == 0)}
+		lastOutcome = fmt.Sprintf("A=%d B=%d/%d closedB=%v", len(got[a]), len(got[b]), len(sentB), bClosed)
+		if bClosed {
+			vsched.Fail("live-connection-closed %s stale-event descriptor-reuse|connection B, which nobody closed and whose peer is open, got a close notification (%v): it inherited the descriptor number of connection A, closed while the poller still held an event fetched for A", c.mode, closed[b])
+			return
+		}
+		if string(got[b]) != string(sentB) {
+			vsched.Fail("inbound-lost %s stale-event descriptor-reuse|connection B (which inherited the descriptor number of the closed connection A) was sent %d bytes, its data callback received %d", c.mode, len(sentB), len(got[b]))
+		}
+	}
+}
+
+func btoi(b bool) int {
+	if b {
+		return 1
+	}
+	return 0
+}
+
 // udpReopenBody: a remote whose session was closed (by the application) sends again: the datagram
 // must open a new session and be delivered on a live connection, never on the closed one after
 // its close notification. With concurrent=true the second datagram races the Close.
@@ -603,6 +687,11 @@ func build(tier string) []*vkit.Scenario {
 				if e.async && e.exec == "go" && b == 2 && mr == 1 {
 					c := cfg{mode: e.mode, async: true, exec: "go", npoller: 1, b: b, maxReads: mr, trans: "tcp", bursts: []int{1, b + 1}, conns: 2, p: 2, d: 0, note: "descriptor-reused-while-reading"}
 					add(c, reuseBody(c))
+				}
+				// a descriptor number reused while the poller holds an event fetched for its previous owner
+				if !e.async && b == 2 && mr == 1 {
+					c := cfg{mode: e.mode, npoller: 1, b: b, maxReads: mr, trans: "tcp", bursts: []int{1, b + 1}, conns: 3, p: 1, d: 0, note: "descriptor-reused-with-event-in-batch"}
+					add(c, staleBody(c))
 				}
 				// UDP: a remote sends again after its session was closed
 				if b == 2 && mr == 1 {
